@@ -20,3 +20,5 @@ def rules(ctx):
     S.mutator_release_rules(ctx)
     S.free_verdict_rules(ctx)
     S.key_compare_rules(ctx)
+    S.root_pair_rules(ctx)
+    S.replaced_range_rules(ctx)
